@@ -124,3 +124,5 @@ def run(ctx):
         ctx.guard('Threefish[%d]' % nw, tf)
     # ------------------------------------------------------------------ rotations / concat
     cmp_many(ctx, OPS, [('rol', S.ROL), ('ror', S.ROR), ('concat', S.CONCAT)])
+
+    dependencies(ctx, ['crysp/aes.py', 'crysp/bits.py', 'crysp/des.py', 'crysp/poly.py', 'crysp/serpent.py', 'crysp/threefish.py', 'crysp/utils/operators.py'], 'C02')
